@@ -466,7 +466,8 @@ def obligations(tier):
                 cfgs.append(('slice', {'step': step}))
             for mk in ('mask-vector', 'mask-list'):
                 for mlen in sorted({n, max(n - 1, 0)}):
-                    cfgs.append((mk, {'mlen': mlen}))
+                    if mlen > 0:          # an empty list / vector is not a boolean mask
+                        cfgs.append((mk, {'mlen': mlen}))
             for ik in ('index-vector', 'index-list', 'index-tuple'):
                 for klen in ((2,) if q else (1, 2, 3)):
                     cfgs.append((ik, {'klen': klen}))
